@@ -36,12 +36,12 @@ def call_pool(rng):
         "list_remove %d %d" % (sl(), rng.randrange(4)), "list_free %d" % sl(), "strlist_free %d" % sl(),
         "tree_new %d %d" % (sl(), rng.randrange(3)), "tree_insert %d %d" % (sl(), rng.randrange(6)), "tree_remove %d %d" % (sl(), rng.randrange(6)),
         "tree_clear %d" % sl(), "tree_free %d" % sl(),
-        "ht_new %d" % sl(), "ht_insert %d %d %d" % (sl(), rng.choice([1, 2, 102, 203, 5]), rng.randrange(3)),
-        "ht_remove %d %d" % (sl(), rng.choice([1, 2, 102, 203, 5])), "ht_keys %d %d" % (sl(), sl()), "ht_values %d %d" % (sl(), sl()),
+        "ht_new %d" % sl(), "ht_insert %d %d %d" % (sl(), rng.choice([1, 2, 102, 203, 5, 64, 165]), rng.randrange(3)),
+        "ht_remove %d %d" % (sl(), rng.choice([1, 2, 102, 203, 5, 64, 165])), "ht_keys %d %d" % (sl(), sl()), "ht_values %d %d" % (sl(), sl()),
         "ht_lbv %d %d %d" % (sl(), sl(), rng.randrange(3)), "ht_free %d" % sl(),
         "err_new %d" % sl(), "err_new_literal %d" % sl(), "err_copy %d %d" % (sl(), sl()), "err_set_error %d" % sl(), "err_set_message %d" % sl(),
         "err_clear %d" % sl(), "err_free %d" % rng.choice([sl(), NS, NS + 1]), "err_set_p %s" % e(),
-        "ini_new %d %d" % (sl(), rng.randrange(3)), "ini_parse %d %s" % (sl(), e()), "ini_sections %d %d" % (sl(), sl()),
+        "ini_new %d %d" % (sl(), rng.randrange(4)), "ini_parse %d %s" % (sl(), e()), "ini_sections %d %d" % (sl(), sl()),
         "ini_keys %d %d %d" % (sl(), rng.randrange(4), sl()), "ini_string %d %d %d %d" % (sl(), rng.randrange(3), rng.randrange(7), sl()),
         "ini_int %d %d %d" % (sl(), rng.randrange(3), rng.randrange(7)), "ini_double %d %d %d" % (sl(), rng.randrange(3), rng.randrange(7)),
         "ini_bool %d %d %d" % (sl(), rng.randrange(3), rng.randrange(7)), "ini_list %d %d %d %d" % (sl(), rng.randrange(3), rng.randrange(7), sl()),
@@ -142,6 +142,11 @@ def directed_cases():
                 "call sock_connect 2 1 12", "call sysfail fcntl", "call sock_accept 1 3 12", "call sysfail fcntl", "call sock_from_fd 4 12", "call sysfail sem_open",
                 "call shm_new 5 2 0 12", "call shm_new 5 2 0 12", "call sysfail sem_open", "call shm_new 6 2 2 12", "call sysfail sem_open", "call shmbuf_new 7 3 0 12",
                 "call sysfail sem_open", "call sem_new 8 4 1 12", "call shm_free 5", "call sock_free 2", "call sock_free 1", "call err_free 12", "call lib_shutdown", "end"])
+    # keys in bucket 0 of the hash table ((key + 37) % 101 == 0) still present at free time; an INI file whose first lines are keys
+    # outside any section (read, then ignored)
+    out.append(["begin", "call lib_init", "call ht_new 0", "call ht_insert 0 64 1", "call ht_insert 0 165 2", "call ht_insert 0 1 3", "call ht_remove 0 1",
+                "call ht_keys 0 1", "call list_free 1", "call ht_free 0", "call ini_new 2 3", "call ini_parse 2 x", "call ini_parse 2 x", "call ini_sections 2 3",
+                "call strlist_free 3", "call ini_string 2 0 0 4", "call str_free 4", "call ini_free 2", "call lib_shutdown", "end"])
     # shutdown of both directions on connected sockets (client, accepted), then close and/or free.  Only in directed
     # sequences: on a socket that was never connected the kernel keeps the shutdown flags, a later connect() then polls
     # as writable at once and SO_ERROR is 0 — a kernel quirk the resource model does not describe (a random sequence
